@@ -145,6 +145,19 @@ CLAIMED = {
             "Assumes python's hash collision-free on fingerprints; qp.execute plumbing and _cache_transform's hit/miss logic "
             "are not under contract; numpy interface.",
             "DESIGN.md 4 C05", "E2+E1"),
+    "C25": ("proof",
+            "sidecar contract on noise/mitigate.py fold_global / _divmod: the real bodies executed symbolically over abstract "
+            "letters (operation list of SYMBOLIC length) and a real scale factor; floor, round-half-even, reversed slices, "
+            "repetition and letterwise adjoint are spec-function terms; one program obligation fixes the exact shape of the "
+            "folded list U (U^dagger U)^folds L^dagger L; gate count, |len - lambda*n| <= 1 and 'same product as U in every group "
+            "where adjoint means inverse' are lemma consequences proved by explicit induction (base + step); z3",
+            "For every list length and every real scale factor >= 1 (incl. the edge cases k == 0 and k == n): number of global "
+            "folds floor((lambda-1)/2), partial fold count round_half_even(frac*n/2), exact shape and length of the folded "
+            "circuit, and equality of its product with the original circuit's; channels are rejected.",
+            "A-float-as-real for lambda; adjoint(op) is the inverse of op (C03) and tape.copy(ops=...) are assumed; the "
+            "reversed-slice model is cross-checked against CPython (bounded); extrapolators, add_noise/insert and "
+            "mitigate_with_zne are not covered.",
+            "DESIGN.md 4 C25", "E1"),
     "C28": ("proof",
             "contract on each built-in channel's compute_kraus_matrices under its own domain guards as path condition: all "
             "radicands >= 0 and |sum K^dagger K - I| <= 16*eps (eps = the source's sqrt stabiliser); real kernel executed "
@@ -155,6 +168,20 @@ CLAIMED = {
             "Trusts vf/symx/sscalar.py, sympy expand, z3 nlsat; ThermalRelaxationError, QubitChannel and everything about "
             "default.mixed's evolution (PSD, trace, Kraus-sum simulation) is not covered.",
             "DESIGN.md 4 C28", "E2"),
+    "C19": ("proof",
+            "sidecar contract on the main loop of transforms/transpile.py:transpile (the `while len(list_op_copy) > 0` statement is "
+            "cut from the real AST on every run and verified as a procedure over its free variables): operation list of "
+            "SYMBOLIC length over abstract operation records, coupling graph an uninterpreted edge relation; outer invariant "
+            "'every two-wire operation in gates is on an edge' (snoc-defined) + well-formedness of the remaining operations "
+            "(cons-defined) with measure len(list_op_copy); inner SWAP-loop invariant on wire_map relative to the ASSUMED "
+            "contract of nx.shortest_path; comprehensions as recursively defined maps with induction lemmas (base + step); z3",
+            "Connectivity half: for all list lengths, labels and edge relations every two-qubit gate of the output acts on an "
+            "edge of the coupling graph (either order), every inserted SWAP acts on consecutive nodes of the routing path, "
+            "wire_map stays injective, the loop terminates.",
+            "shortest_path (simple path, consecutive nodes adjacent), map_wires, SWAP construction and graph connectivity are "
+            "assumed; equality with the input up to the final permutation, the preceding decompose, measurement re-mapping and "
+            "state_transposition are not covered.",
+            "DESIGN.md 4 C19", "E1"),
     "C20": ("proof",
             "sidecar contracts on the bookkeeping core of transforms/split_non_commuting.py (_split_all_multi_term_obs_mps, "
             "_processing_fn_no_grouping, _processing_fn_with_grouping, _sum_terms) and the post-processing closure of "
